@@ -146,6 +146,11 @@ theorem boundary_valid (fs : List (Fld K)) (hne : fs ≠ []) (hpos : ∀ f ∈ f
   simp only at h1
   omega
 
+theorem mergeSlice_eq (b e : Extent) :
+    Gen.mergeSlice b.rmin b.rmax b.cmin b.cmax e.rmin e.rmax e.cmin e.cmax =
+      ((e.rmin - b.rmin, e.rmax - b.rmin + 1), (e.cmin - b.cmin, e.cmax - b.cmin + 1)) := by
+  simp [Gen.mergeSlice]
+
 /-- the merged field occupies exactly the `boundary` box of its members -/
 theorem mergeL_extent [Add K] [Zero K] (fs : List (Fld K)) (hne : fs ≠ [])
     (hpos : ∀ f ∈ fs, 0 < f.arr.s0 ∧ 0 < f.arr.s1) (p : Fld K) (h : mergeL fs = some p) :
@@ -166,7 +171,7 @@ theorem mergeL_emb [AddZeroClass K] (fs : List (Fld K)) (hne : fs ≠ [])
     (hpos : ∀ f ∈ fs, 0 < f.arr.s0 ∧ 0 < f.arr.s1) (p : Fld K) (h : mergeL fs = some p) (r c : Int) :
     p.emb r c = sumList fs (fun f => f.emb r c) := by
   unfold mergeL at h
-  simp only [] at h
+  simp only [mergeSlice_eq] at h
   generalize hb : boundaryL (fs.map Fld.extent) = b at h
   have hcont : ∀ f ∈ fs, b.rmin ≤ f.extent.rmin ∧ f.extent.rmax ≤ b.rmax ∧ b.cmin ≤ f.extent.cmin ∧ f.extent.cmax ≤ b.cmax := by
     intro f hf; have := boundary_contains fs f hf; simp only [hb] at this; exact this
@@ -223,5 +228,19 @@ theorem mulArr_translate [Mul K] (a b : Fld K) (d0 d1 : Int) :
   by_cases h : intersect a.extent b.extent = true
   · simp only [h, if_true, Option.map_some]; rfl
   · simp only [h, Bool.false_eq_true, if_false, Option.map_none]
+
+/-- (definitional: restates the first branch of `Fld.mul`) two one-element fields: the documented rule — the constants multiply when the offsets agree, and the product is
+empty otherwise -/
+theorem Fld.mul_scalar_scalar [Mul K] (a b : Fld K) (hab : (a.size1 && b.size1) = true) :
+    a.mul b = if a.o0 = b.o0 ∧ a.o1 = b.o1
+      then some { arr := { s0 := 1, s1 := 1, get := fun _ _ => a.arr.get 0 0 * b.arr.get 0 0 }, o0 := a.o0, o1 := a.o1 }
+      else none := by
+  unfold Fld.mul
+  simp only [hab, if_true]
+  by_cases h : a.o0 = b.o0 ∧ a.o1 = b.o1
+  · simp [h]
+  · have : (decide (a.o0 = b.o0) && decide (a.o1 = b.o1)) = false := by
+      rw [Bool.eq_false_iff]; intro hh; simp only [Bool.and_eq_true, decide_eq_true_eq] at hh; exact h hh
+    simp [this, h]
 
 end Lentil
